@@ -4,6 +4,7 @@ well-formedness hypothesis of the theorem.
 -/
 import Paroxy.Spec.FlatAst
 import Paroxy.Model.NodeFeature
+import Paroxy.Model.WholeSpan
 namespace Paroxy.Flat
 
 /-- The positioned nodes among the entries of an enumeration: `(type, line number)`. -/
@@ -76,6 +77,33 @@ instance (es : List Entry) : Decidable (PreorderMonotone es) := by
 def GoodSpan (m : Str × List Str) : Prop :=
   ∃ n a, m.2 = [posText n a] ∨ ∃ n' a', m.2 = [posText n a, posText n' a'] ∧ n ≤ n'
 
+/-- Further local clauses for the `whole_span` theorems: the path shown by a positioned node is not empty
+(it is below a list of the root); a scalar line offers no position to the `whole_span` pattern (true of
+every escaped value whose field name does not end with `_pos`). -/
+def Entry.ok3 (e : Entry) : Bool :=
+  e.ok2 &&
+    match e.item with
+    | .node _ _ _ (some _) => !(posPath e.addr).isEmpty
+    | .node _ _ _ none => true
+    | .list _ _ => true
+    | .scalar r =>
+      (firstWholePos? (scalarLine (encNames e.names) r)).isNone &&
+        (lastWholePos? (scalarLine (encNames e.names) r)).isNone
+
+/-- Line and address of a positioned entry. -/
+def Entry.posOf (e : Entry) : Option (Nat × List Nat) :=
+  match e.item with
+  | .node _ _ _ (some n) => some (n, e.addr)
+  | _ => none
+
+/-- The line of the first positioned entry, and the entries that follow it. -/
+def firstPosSplit : List Entry → Option (Nat × List Entry)
+  | [] => none
+  | e :: es =>
+    match e.item with
+    | .node _ _ _ (some n) => some (n, es)
+    | _ => firstPosSplit es
+
 /-- Line and address of the last positioned entry of an enumeration. -/
 def lastPosOfEntries (es : List Entry) : Option (Nat × List Nat) :=
   (es.filterMap fun e => match e.item with
@@ -119,6 +147,9 @@ end
 /-- `Tree.WF` for the span theorems of C02 (Bool-valued, evaluated by the driver on every tree). -/
 def treeOk2 (t : Val) : Bool :=
   (entries [] [] t).all fun e => e.ok2 && e.typed (posTypes t).contains
+
+/-- `Tree.WF` for the `whole_span` theorems of C02. -/
+def treeOk3 (t : Val) : Bool := (entries [] [] t).all Entry.ok3
 
 /-! ## Data flow of tagging (for `C01_same_text`) -/
 
